@@ -324,6 +324,13 @@ Definition export_state (fl : bflags) (H : net) : est :=
 Definition hypergraph_to_bipartite (fl : bflags) (H : net) : bgraph :=
   let st := export_state fl H in BGraph (e_nodes st) (e_arcs st).
 
+(** ** facades: conversion._as_bipartite (its own keyword defaults: integer ids!) and backend._CRNGraphBackend.G *)
+Definition as_bipartite (sp rp : option string) (int_ st : option bool) (H : net) : bgraph :=
+  hypergraph_to_bipartite (BFlags (Some (default "S:" sp)) (Some (default "R:" rp)) 0 1 (default true st) true true
+                                  (default true int_) false false) H.
+Definition backend_bipartite (int_ st : bool) (H : net) : bgraph :=
+  hypergraph_to_bipartite (BFlags None None 0 1 st true true int_ false false) H.
+
 (** ** import *)
 Record iflags := IFlags { i_sp : string; i_rp : string; i_default_rule : string; i_mol : bool }.
 Definition default_iflags (mol_attr : bool) : iflags := IFlags "S:" "R:" "r" mol_attr.
@@ -529,6 +536,8 @@ Inductive view :=
 | VLine (line : string) (rule : option string) (parse_suffix : bool)
 | VParse (lines : list string) (default_rule : string) (parse_suffix prefer_suffix : bool)
 | VSgX (include_mol : bool)                                   (* export only: _as_species_graph, backend *)
+| VAsBip (sp rp : option string) (int_ st : option bool)      (* absent keyword = None *)
+| VBackend (include_rule int_ st : bool)
 | VItems (items : list (string * option string)) (default_rule : string) (parse_suffix prefer_suffix : bool).
 
 Definition pick_first (X : gset string) : string := default "" (head (elements X)).
@@ -554,6 +563,9 @@ Definition run_view (H : net) (v : view) : tok :=
   | VLine line rule ps => tres tnet_plain (add_from_str empty_net line rule ps)
   | VParse lines dr ps pf => tres tnet_plain (rxns_to_hypergraph lines dr ps pf)
   | VSgX include_mol => L [tsgraph (hypergraph_to_species_graph include_mol H)]
+  | VAsBip sp rp int_ st => L [tbgraph (as_bipartite sp rp int_ st H)]
+  | VBackend include_rule int_ st =>
+      if include_rule then L [tbgraph (backend_bipartite int_ st H)] else L [tsgraph (hypergraph_to_species_graph false H)]
   | VItems items dr ps pf => tres tnet_plain (parse_items empty_net items dr ps pf)
   end.
 
